@@ -836,20 +836,22 @@ func curFS() *VFS {
 	return v
 }
 
-func OsStat(p string) (fs.FileInfo, error)                       { return curFS().Stat(p) }
-func OsOpen(p string) (*File, error)                             { return curFS().Open(p) }
-func OsCreate(p string) (*File, error)                           { return curFS().Create(p) }
-func OsOpenFile(p string, flag int, perm fs.FileMode) (*File, error) { return curFS().OpenFile(p, flag, perm) }
-func OsCreateTemp(dir, pattern string) (*File, error)            { return curFS().CreateTemp(dir, pattern) }
-func OsRemove(p string) error                                    { return curFS().Remove(p) }
-func OsRemoveAll(p string) error                                 { return curFS().RemoveAll(p) }
-func OsRename(a, b string) error                                 { return curFS().Rename(a, b) }
-func OsMkdir(p string, perm fs.FileMode) error                   { return curFS().Mkdir(p, perm) }
-func OsMkdirAll(p string, perm fs.FileMode) error                { return curFS().MkdirAll(p, perm) }
-func OsReadFile(p string) ([]byte, error)                        { return curFS().ReadFile(p) }
-func OsWriteFile(p string, d []byte, perm fs.FileMode) error     { return curFS().WriteFile(p, d, perm) }
-func OsReadDir(p string) ([]fs.DirEntry, error)                  { return curFS().ReadDir(p) }
-func WalkDir(root string, fn fs.WalkDirFunc) error               { return curFS().WalkDir(root, fn) }
+func OsStat(p string) (fs.FileInfo, error) { return curFS().Stat(p) }
+func OsOpen(p string) (*File, error)       { return curFS().Open(p) }
+func OsCreate(p string) (*File, error)     { return curFS().Create(p) }
+func OsOpenFile(p string, flag int, perm fs.FileMode) (*File, error) {
+	return curFS().OpenFile(p, flag, perm)
+}
+func OsCreateTemp(dir, pattern string) (*File, error)        { return curFS().CreateTemp(dir, pattern) }
+func OsRemove(p string) error                                { return curFS().Remove(p) }
+func OsRemoveAll(p string) error                             { return curFS().RemoveAll(p) }
+func OsRename(a, b string) error                             { return curFS().Rename(a, b) }
+func OsMkdir(p string, perm fs.FileMode) error               { return curFS().Mkdir(p, perm) }
+func OsMkdirAll(p string, perm fs.FileMode) error            { return curFS().MkdirAll(p, perm) }
+func OsReadFile(p string) ([]byte, error)                    { return curFS().ReadFile(p) }
+func OsWriteFile(p string, d []byte, perm fs.FileMode) error { return curFS().WriteFile(p, d, perm) }
+func OsReadDir(p string) ([]fs.DirEntry, error)              { return curFS().ReadDir(p) }
+func WalkDir(root string, fn fs.WalkDirFunc) error           { return curFS().WalkDir(root, fn) }
 func OsTruncate(p string, size int64) error {
 	f, err := curFS().OpenFile(p, os.O_WRONLY, 0)
 	if err != nil {
